@@ -56,10 +56,11 @@ def gen(ctx):
         "s20000 o1,100000,0 o3,100000,0 o5,100000,0 o7,100000,0 q w1,100000 w3,100000 w5,100000 w7,100000 q w0,1000000 q",
         # a SETTINGS_INITIAL_WINDOW_SIZE change that overflows a live stream's window is a CONNECTION error
         # (RFC 9113 6.9.2); the neighbouring values are not
-        "o1,100000,0 q w1,2147483647 q s65536 q",
-        "o1,100000,0 q w1,2147483647 q o3,2048,0 s65536 q",
-        "o1,100000,0 q w1,2147483646 q s65536 q w0,100000 q",
-        "o1,100000,0 q w1,2147483647 q s65535 q s65534 q w0,100000 q",
+        # (stream 1 first exhausts the connection window so that stream 3 cannot send and keeps its window)
+        "o1,100000,0 q o3,100000,0 q w3,2147418112 q s65536 q",
+        "o1,100000,0 q o3,100000,0 o5,2048,0 q w3,2147418112 q s65536 q",
+        "o1,100000,0 q o3,100000,0 q w3,2147418111 q s65536 q w0,1000000 q",
+        "o1,100000,0 q o3,100000,0 q w3,2147418112 q s65535 q s65534 q w0,1000000 q",
         # WINDOW_UPDATE on an idle stream (never opened) is a connection error; on a retired one it is ignored
         "o1,2048,0 q w5,100 q",
         "o1,2048,0 q w1,100 q o3,100000,0 q w0,100000 w3,100000 q",
